@@ -207,6 +207,15 @@ func runC11(c C11Case) (v *Violation, st c11Stats) {
 			if x := measure("GetAbsent", 2*h+2, func(t *iavl.ImmutableTree) error { _, err := t.Get(absent); return err }); x != nil {
 				return x
 			}
+			if _, present := kv[string(absent)]; !present {
+				// a non-membership proof (two neighbours) is a proof too: 10h+10
+				if x := measure("GetProofAbsent", 10*h+10, func(t *iavl.ImmutableTree) error { _, err := t.GetProof(absent); return err }); x != nil {
+					return x
+				}
+				if x := measure("GetNonMembershipProof", 10*h+10, func(t *iavl.ImmutableTree) error { _, err := t.GetNonMembershipProof(absent); return err }); x != nil {
+					return x
+				}
+			}
 		}
 		return nil
 	}
